@@ -28,6 +28,45 @@ REGISTRY = {
 }
 
 
+def replay_file(pid, mod, fn, path):
+    """--replay FILE: re-establish a recorded counterexample on the current tree.
+
+    Where the recorded inputs are self-contained (C04/C05: values + configuration) the real code is re-run on exactly
+    those inputs.  Otherwise the check itself is re-run (the encoding is regenerated from the current source, the
+    solver finds its counterexamples again and each is replayed on the real code) and the recorded violation counts
+    as reproduced iff a violation with the same obligation and tags is reported again.
+    exit 1 = reproduced, 0 = not reproduced on this tree, 2 = could not be decided."""
+    import hashlib
+    import json
+    from pathlib import Path
+    from vf import common
+    rec = json.loads(Path(path).read_text())
+    if pid in ('C04', 'C05') and isinstance(rec.get('inputs'), dict) and 'cfg' in rec['inputs']:
+        from vf.harness import c0405 as H
+        oid = rec['obligation']
+        inv = {w: k for k, w in H.ALSO_C04.items()}
+        ok, detail = H.replay(dict(obligation=inv.get(oid, oid), values=rec['inputs']['values'], cfg=rec['inputs']['cfg']))
+        if ok:
+            print(f'VIOLATION property={pid} replay={path}')
+            print(f'  obligation={oid} :: {detail}')
+            return 1
+        print(f'not reproduced on the current tree: property={pid} obligation={oid} :: {detail}')
+        return 0
+    h = hashlib.sha1(json.dumps([rec['obligation'], rec['tags']], sort_keys=True, default=str).encode()).hexdigest()[:12]
+    target = common.REPLAYS / pid / f'{h}.json'
+    before = target.stat().st_mtime_ns if target.exists() else None
+    rc = fn(mod)
+    after = target.stat().st_mtime_ns if target.exists() else None
+    if rc == 1 and after is not None and after != before:
+        print(f'reproduced: property={pid} obligation={rec["obligation"]} (see the VIOLATION line above)')
+        return 1
+    if rc == 2:
+        print(f'INCONCLUSIVE property={pid} replay of {path}: the check was inconclusive on this tree')
+        return 2
+    print(f'not reproduced on the current tree: property={pid} obligation={rec["obligation"]} tags={rec["tags"]}')
+    return 0 if rc == 0 else rc
+
+
 def main():
     pid = sys.argv[1]
     if pid not in REGISTRY:
@@ -37,7 +76,7 @@ def main():
     try:
         mod = importlib.import_module(modname)
         if os.environ.get('VERIF_REPLAY'):
-            return mod.replay_file(pid, os.environ['VERIF_REPLAY'])
+            return replay_file(pid, mod, fn, os.environ['VERIF_REPLAY'])
         return fn(mod)
     except SystemExit:
         raise
